@@ -158,19 +158,21 @@ def gate_records(log, terms, imag, grain, tolq=1e-9):
         rec = {"i": int(where[0]), "j": int(where[1]), "ok": pq is not None, "p": pq[0] if pq else 0,
                "q": pq[1] if pq else 0, "dg": int(dg), "ab": str(g["absorb"])}
         recs.append(rec)
-        exps.append((where, pq))
+        exps.append((where, pq, c))
     return recs, exps
 
 
 def product_on_state(psi, exps, terms, imag, grain, n):
     """apply the exponentials of the *snapped* exponents (the specification's coefficients) in order"""
     cache = {}
-    for where, pq in exps:
-        if pq is None:
-            return None
-        key = (where, pq)
+    for where, pq, craw in exps:
+        # an exponent off the grid is reported by GatesOnGrid; the reference then follows the raw exponent so that
+        # later comparisons of the same object stay meaningful
+        key = (where, pq if pq is not None else craw)
         if key not in cache:
-            c = coef_value(pq[0], pq[1], grain)
+            c = coef_value(pq[0], pq[1], grain) if pq is not None else craw
+            if not np.isfinite(c):
+                return None
             h = oriented_term(terms, where)
             cache[key] = sla.expm((-c if imag else -1j * c) * h)
         psi = apply_local(psi, cache[key], list(where), n)
